@@ -1,0 +1,24 @@
+//! Verification hooks for the per-remote state (`socket::remote_map`) and the default path
+//! selector.  Only compiled with the `verif-hooks` feature; add-only, no behaviour change.
+
+use std::sync::Arc;
+
+pub use crate::socket::remote_map::path_state_verif::{
+    VerifPathStatus, VerifRemotePathState, VerifSource, verif_prune_non_relay_paths,
+};
+pub use crate::socket::{
+    remote_map::{PathSelection, PathSelectionContext, PathSelectionData, PathSelector},
+    transports::{Addr, AddrKind, FourTuple},
+};
+
+/// The default path selector installed by iroh ([`BiasedRttPathSelector::default`]).
+///
+/// [`BiasedRttPathSelector::default`]: crate::socket::biased_rtt_path_selector::BiasedRttPathSelector
+pub fn default_path_selector() -> Arc<dyn PathSelector> {
+    Arc::new(crate::socket::biased_rtt_path_selector::BiasedRttPathSelector::default())
+}
+
+/// The path chosen by a [`PathSelection`], if any (`PathSelection::selected`).
+pub fn selection_selected(selection: &PathSelection) -> Option<FourTuple> {
+    selection.selected().cloned()
+}
